@@ -168,6 +168,40 @@ def run(ctx):
             obs.append(observe(bytes(rec), oid))
         ncol += 1
     ctx.extra['digest_colliding_pairs'] = ncol
+    # the same decoding through the file readers (KdBufParser.parse, PyKdebugParser.kevents): every record of a version-2
+    # file - also one that BEGINS with bytes the reader looks for elsewhere (version magics, tags) - comes out as the event
+    # from_kd_buf gives for it
+    import io
+    from pykdebugparser.kevent import from_kd_buf
+    from pykdebugparser.kd_buf_parser import KdBufParser
+    from pykdebugparser.pykdebugparser import PyKdebugParser
+    from .encode import encode_v2
+    from . import mine
+    nfile = 0
+    for k in range(12 if ctx.quick else 200):
+        rs = []
+        for j in range(rnd.choice([3, 8, 40])):
+            r_ = bytearray(rnd.getrandbits(8) for _ in range(64))
+            if j == 0:
+                r_[0] = r_[0] or 1
+            elif rnd.random() < 0.3:
+                m_ = rnd.choice(mine.infra()['bytes'] or [b'\x00\x02\xaa\x55'])
+                r_[0:len(m_)] = m_
+            rs.append(bytes(r_))
+        blob, _lay = encode_v2([(5, 6, b'p', b'')], rnd.choice([0, 0, 64]), rs)
+        want = [tuple(from_kd_buf(r_)) for r_ in rs]
+        for via in ('kdbuf', 'api'):
+            try:
+                got = [tuple(e) for e in (KdBufParser({}, {}).parse(io.BytesIO(blob)) if via == 'kdbuf' else PyKdebugParser().kevents(io.BytesIO(blob)))]
+            except Exception as ex:
+                got = ['raised ' + repr(ex)]
+            nfile += 1
+            if got != want:
+                d_ = next((i for i in range(max(len(got), len(want))) if i >= len(got) or i >= len(want) or got[i] != want[i]), 0)
+                ctx.violation('C01/through-reader/%s' % via, 'record %d of a %d-record version-2 file (%s) is not decoded as from_kd_buf decodes it: %r'
+                              % (d_, len(rs), rs[d_].hex() if d_ < len(rs) else '-', got[d_] if d_ < len(got) else None),
+                              {'record_hex': rs[d_].hex() if d_ < len(rs) else '', 'clause': 'through-reader'})
+    ctx.extra['files_through_readers'] = nfile
     ctx.sample({'record_hex': bases[2].hex(), 'decoded': {k: v for k, v in obs[2 * 16384].items() if k != 'r'}})
     n, rej, results = validate_observations('KdRecord_Val', obs, ctx.workdir, timeout=1800)
     ctx.traces += n
